@@ -24,8 +24,20 @@ def mask_of(tv):
     return m
 
 
+class ArcStr(str):
+    """An `Arc<str>`: equal by text, but every allocation is a distinct object (`Arc::ptr_eq` is identity)."""
+    __slots__ = ()
+
+
+INTERNED = {"Int": ArcStr("Int"), "String": ArcStr("String")}     # from_name_and_modifiers shares these two; others are fresh
+
+
+def arc_name(base):
+    return INTERNED.get(base) or ArcStr(base)
+
+
 def concrete(tv):
-    return A.Struct(TY, {"base": tv.base, "modifiers": A.Struct(MODS, {"mask": mask_of(tv)})})
+    return A.Struct(TY, {"base": arc_name(tv.base), "modifiers": A.Struct(MODS, {"mask": mask_of(tv)})})
 
 
 def decode_mask(base, mask):
@@ -108,6 +120,7 @@ def intrinsics():
     I["trustfall_core::ir::types::base::get_string_type_name_arc"] = lambda ip, n, a: "String"
     I["trustfall_core::ir::types::base::get_int_type_name_arc"] = lambda ip, n, a: "Int"
     I["alloc::sync::Arc::<T, A>::clone"] = lambda ip, n, a: d(a[0])
+    I["alloc::sync::Arc::<T, A>::ptr_eq"] = lambda ip, n, a: d(a[0]) is d(a[1])
     I["core::convert::From::from"] = lambda ip, n, a: d(a[0])
     I["core::convert::Into::into"] = lambda ip, n, a: d(a[0])
     return I
